@@ -109,6 +109,15 @@ def idsVerdict (pre tag : String) (src s e ds impl : String) : Verdict := Id.run
 
 def handle (op : String) (args : List String) (impl : String) : Option Verdict :=
   match op, args with
+  | "subsession", [msgId, statuses] => some <| Id.run do
+    let pending := (items statuses ",").any (· == "p")
+    -- the Substrate executor signs a delivery under its message id — for every relayer, fresh or not
+    let m := if pending then subSessionId msgId else "-"
+    return ⟨m, impl == m, s!"subsession:pending={pending}:n={min (items statuses ",").length 3}"⟩
+  | "btcsession", [_msgId, n, np] => some <| Id.run do
+    let some n := n.toNat? | return bad
+    -- per-input session ids = hex sighashes: identical for every relayer / history, one per input
+    return ⟨s!"same:{n}", impl.startsWith "same:", s!"btcsession:inputs={n}:props={np}"⟩
   | "subids", [src, s, e, ds] => some (idsVerdict "" "subids" src s e ds impl)
   | "subretryids", [src, s, e, _h, ds] => some (idsVerdict "retry-" "subretryids" src s e ds impl)
   | "evmretry1ids", [src, s, e, ds] => some (idsVerdict "retry-" "evmretry1ids" src s e ds impl)
